@@ -1011,7 +1011,10 @@ def _exec_ckpt(run, rd):
         if not ok:
             run.probe("fault_load_raised")
         else:
-            same = PU.greedy(m2.policy, m2.env, fresh) == before["policy"]
+            try:  # a damaged pickle may load as a model that cannot even run: observation only
+                same = PU.greedy(m2.policy, m2.env, fresh) == before["policy"]
+            except Exception:  # noqa: BLE001
+                same = False
             run.probe("fault_load_intact" if same else "obs_fault_silent_damage")
         run.summary = {"fault": info}
         return
